@@ -204,8 +204,12 @@ func genC15(t *rapid.T) HistoryCase {
 	})
 	n := gen.Int(t, "nOps", 1, 12)
 	ops := make([]string, n)
+	noColor := hasLongString(val.MustParse(pc.A), 3000)
 	for i := range ops {
 		ops[i] = gen.Pick(t, "op", c15Ops)
+		if noColor && ops[i] == "render-color" {
+			ops[i] = "render"
+		}
 	}
 	return HistoryCase{A: pc.A, B: pc.B, Opts: pc.Opts, Ops: ops}
 }
